@@ -167,6 +167,7 @@ pub fn generate(prop: &str, seed: u64, tier: &str, out: &mut dyn std::io::Write)
             let name = (*r.pick(&["/user/supplied/lib.so", "/user/supplied/libx.so.3.1", "relative-name"])).to_string();
             cfg.user_mappings.push((st, sz, *r.pick(&[0u64, 0x1000]), *r.pick(&[0x15u8, 0x11, 0x13]), name, r.bytes(idlen)));
         }
+        cfg.user_sys_delta = *Rng::for_case(seed, 809, i).pick(&[0u64, 0, 0x1000, 0x2000]);
         // longer caller lists in which only a later (or only an earlier) entry contains a module: entries at lower
         // and higher addresses that contain nothing around it, in ascending, descending or shuffled order
         {
